@@ -70,6 +70,8 @@ Schema(s) ==
          << DSec("t", {"MULTI","TITLE"}, << DInt("x", "5"), DPtr("p") >>) >>
     [] s = 8 -> (* two lists with defaults: interplay of consecutive list assignments *)
          << DIntList("la", <<"1","2">>), DStrList("lb", <<"x">>) >>
+    [] s = 22 -> (* plain sections nested in plain sections (all created with the context) *)
+         << DSec("o", {}, << DSec("n", {}, << DSec("d", {}, << DInt("x", "5") >>) >>) >>) >>
     [] s = 20 -> (* one scalar: room for long texts over a small alphabet *)
          << DInt("i", "7") >>
     [] s = 21 -> (* a section option that carries the case-insensitivity flag itself, in a case-sensitive context *)
@@ -117,6 +119,7 @@ ValuePool(s) ==
     [] s = 19 -> {"1"}
     [] s = 20 -> {"1"}
     [] s = 21 -> {"1"}
+    [] s = 22 -> {"1"}
 TitlePool(s) == IF s \in {2, 3, 4} THEN (IF Mode \in {"ignore", "ignorecmt"} THEN {"a"} ELSE {"a", "b"})
                 ELSE IF s = 7 THEN {"a", "A"} ELSE IF s \in {9, 15, 21} THEN {"a"} ELSE {}
 
